@@ -21,10 +21,15 @@ LEAVES = {  # name -> (text, clocky)
     "Du": ("x - y <= 5", True),
     "Rc": ("5 >= x", True),
     "Ib": ("b[0] == 1", False),
+    # further spellings of clock comparisons (depth-2 sweep): bound on the left of a difference, inequalities, floating-point bounds,
+    # clock-array elements, strict bounds, a variable bound
+    "Rd": ("5 >= x - y", True), "Rl": ("3 <= x - y", True), "Nc": ("x != y", True), "Nd": ("x - y != 3", True), "Nr": ("3 != x", True),
+    "Df": ("x - y > 2.5", True), "Cf": ("x > 2.5", True), "Ca": ("xs[1] <= 5", True), "Da": ("xs[0] - y < 5", True), "Cs": ("x < 5", True),
+    "Cv": ("x <= i", True), "Cc": ("x < y", True), "Ed": ("x - y == 2", True),
 }
 BIN = ["&&", "||", "imply", "xor", "==", "!="]
 UN = ["!", "forall", "exists"]
-DECL = "clock x, y; int i; int b[2];"
+DECL = "clock x, y; int i; int b[2]; clock xs[2];"
 
 
 def leaf_node(name):
@@ -180,6 +185,12 @@ def main():
     for res in engine.pmap(run_shard, shards, chunksize=4):
         rep.merge(res)
     rep.extra["trees"] = len(trees(1, leaves)) + len(UN) * sub_n + len(BIN) * sub_n * sub_n
+    # depth-2 sweep over every atom spelling
+    allv = list(LEAVES)
+    shards = [(2, allv, "leaf", None, 0)] + [(2, allv, "un", op, 0) for op in UN] + [(2, allv, "bin", op, ai) for op in BIN for ai in range(len(allv))]
+    for res in engine.pmap(run_shard, shards, chunksize=4):
+        rep.merge(res)
+    rep.extra["trees_depth2_all_atoms"] = len(allv) + len(UN) * len(allv) + len(BIN) * len(allv) ** 2
     if engine.tier() == "thorough":
         d4, l4, b4, u4 = DEEP
         sub4 = len(trees(d4 - 1, l4, b4, u4))
